@@ -51,10 +51,13 @@ def _run(tier, seed, replay=None):
     v = vlib.Verdict(PID, tier, seed)
     cfg = "WorkUnit_crash.cfg" if tier == "quick" else "WorkUnit_crash_full.cfg"
     r = vlib.tlc_must_pass("WorkUnit", cfg, wd, timeout=2400, heap="10g")
-    variants = {
-        "TruncFirst=TRUE (the repaired truncate-then-write defect)": variant(wd, "wu_truncfirst.cfg", [("TruncFirst = FALSE", "TruncFirst = TRUE")], "Durable"),
-        "FindUnitHoldsRLock=TRUE (the repaired findUnit defect)": variant(wd, "wu_rlock.cfg", [("FindUnitHoldsRLock = FALSE", "FindUnitHoldsRLock = TRUE")], "NoStatusBlocks"),
-    }
+    # quick keeps the number of TLC launches small; must-fail variants and witnesses run in the thorough tier
+    variants = {}
+    if tier != "quick":
+        variants = {
+            "TruncFirst=TRUE (the repaired truncate-then-write defect)": variant(wd, "wu_truncfirst.cfg", [("TruncFirst = FALSE", "TruncFirst = TRUE")], "Durable"),
+            "FindUnitHoldsRLock=TRUE (the repaired findUnit defect)": variant(wd, "wu_rlock.cfg", [("FindUnitHoldsRLock = FALSE", "FindUnitHoldsRLock = TRUE")], "NoStatusBlocks"),
+        }
     if tier != "quick":
         variants["KF_LiveRunnerFailed=FALSE (the open finding is in the spec)"] = variant(
             wd, "wu_nokf.cfg", [("KF_LiveRunnerFailed = TRUE", "KF_LiveRunnerFailed = FALSE"), ("MaxCrashes = 1", "MaxCrashes = 2")], "Durable")
@@ -71,11 +74,12 @@ def _run(tier, seed, replay=None):
         if not rl.ok:
             raise vlib.Inconclusive("RemoteUnit liveness configuration failed (exit %s, violated=%s)" % (rl.exit, rl.violated))
         vlib.witnesses("RemoteUnit", "RemoteUnit_quick.cfg", ["W_NoCancelAfterRestart", "W_NoCancelRetry", "W_NoGaveUp"], wd)
-    rv = vlib.tlc("RemoteUnit", "ru_idknown.cfg", wd, timeout=600, cfg_text=ru_base.replace("RestartIfIdKnown = FALSE", "RestartIfIdKnown = TRUE"))
-    if not rv.violated:
-        raise vlib.Inconclusive("RemoteUnit variant RestartIfIdKnown=TRUE did not violate anything (exit %s)" % rv.exit)
-    variants["RemoteUnit RestartIfIdKnown=TRUE (restart resumes a half-finished remote submission)"] = rv.violated
-    wit = vlib.witnesses("WorkUnit", "WorkUnit_crash.cfg", ["W_NoRecovery", "W_NoSucceeded"], wd)
+    if tier != "quick":
+        rv = vlib.tlc("RemoteUnit", "ru_idknown.cfg", wd, timeout=600, cfg_text=ru_base.replace("RestartIfIdKnown = FALSE", "RestartIfIdKnown = TRUE"))
+        if not rv.violated:
+            raise vlib.Inconclusive("RemoteUnit variant RestartIfIdKnown=TRUE did not violate anything (exit %s)" % rv.exit)
+        variants["RemoteUnit RestartIfIdKnown=TRUE (restart resumes a half-finished remote submission)"] = rv.violated
+    wit = [] if tier == "quick" else vlib.witnesses("WorkUnit", "WorkUnit_crash.cfg", ["W_NoRecovery", "W_NoSucceeded"], wd)
 
     rec = vlib.build_receptor()
     vd = vlib.build_harness("vd")
